@@ -69,6 +69,7 @@ SPECIALS = [
 class Gen:
     def __init__(self, seed, module):
         self.rng = random.Random(seed)
+        self.seed = seed
         self.module = module
         self.items = []      # generated standalone types: dicts
         self.families = []   # family dicts
@@ -616,6 +617,61 @@ class Gen:
             if any(v.get("discr") is not None for v in variants):
                 tags.add("explicit-discr")
             self.add_item(mod, ty, d, m, tags, pool_t=T("super::%s::%s" % (mod, ty), tags={"nested-derived"}, depth=1))
+        # one field-less and one data-carrying enum per supported repr width
+        more = [
+            ("cur_e11", "CurE11", "i16", [("A", "unit", [], None), ("B", "unit", [], None), ("C", "unit", [], None)]),
+            ("cur_e12", "CurE12", "i32", [("A", "unit", [], None), ("B", "unit", [], None), ("C", "unit", [], None)]),
+            ("cur_e13", "CurE13", "u32", [("A", "unit", [], None), ("B", "unit", [], None)]),
+            ("cur_e14", "CurE14", "u16", [("A", "unit", [], None), ("B", "unit", [], None), ("C", "unit", [], None)]),
+            ("cur_e15", "CurE15", "i16", [("A", "tuple", ["i16"], None), ("B", "tuple", ["u16"], None)]),
+            ("cur_e16", "CurE16", "i32", [("A", "tuple", ["i32"], None), ("B", "tuple", ["f32"], None)]),
+            ("cur_e17", "CurE17", "i8", [("A", "unit", [], None), ("B", "unit", [], None)]),
+        ]
+        for (mod, ty, rp, vs) in more:
+            variants = []
+            for (vn, st, ftys, discr) in vs:
+                fs = [dict(name=("%d" % j if st == "tuple" else "a%d" % j), ty=t, t=PRIMS[t]) for j, t in enumerate(ftys)]
+                variants.append(dict(name=vn, style=st, fields=fs))
+            d, m = self.emit_enum(ty, variants, rp)
+            self.add_item(mod, ty, d, m, {"curated", "enum", "repr:" + str(rp)}, pool_t=T("super::%s::%s" % (mod, ty), tags={"nested-derived"}, depth=1))
+        # variant-count boundaries of the implicit discriminant width
+        for n in (255, 257):
+            variants = [dict(name="V%d" % i, style="unit", fields=[]) for i in range(n)]
+            d, m = self.emit_enum("Cur%d" % n, variants, None)
+            self.add_item("cur_%d" % n, "Cur%d" % n, d, m, {"curated", "enum", "many-variants"})
+        # runs of equally aligned fixed-size fields next to non-packed fields in default-repr structs: the
+        # derive writes such runs with one copy when they are adjacent in memory, and rustc is free to reorder
+        # them (niche-carrying bool/char vs plain integers)
+        runs = [
+            ("cur_run1", "CurRun1", [("a", "bool"), ("b", "u8"), ("c", "bool"), ("d", "u8"), ("s", "String")]),
+            ("cur_run2", "CurRun2", [("a", "u8"), ("b", "bool"), ("c", "u8"), ("d", "bool"), ("e", "u8"), ("v", "Vec<u8>")]),
+            ("cur_run3", "CurRun3", [("n", "usize"), ("a", "u32"), ("b", "char"), ("c", "u32"), ("d", "char")]),
+            ("cur_run4", "CurRun4", [("a", "char"), ("b", "f32"), ("c", "char"), ("d", "i32"), ("e", "u32"), ("s", "String")]),
+            ("cur_run5", "CurRun5", [("a", "i8"), ("b", "bool"), ("c", "i8"), ("d", "bool"), ("e", "bool"), ("f", "u8"), ("o", "Option<u8>")]),
+            ("cur_run6", "CurRun6", [("a", "u16"), ("b", "i16"), ("c", "u16"), ("s", "String"), ("x", "bool"), ("y", "u8"), ("z", "bool"), ("w", "u8")]),
+            ("cur_run7", "CurRun7", [("s", "String"), ("a", "u64"), ("b", "f64"), ("c", "i64"), ("t", "String"), ("d", "bool"), ("e", "bool"), ("f", "u8"), ("g", "i8")]),
+        ]
+        rr = random.Random(self.seed * 7919 + 13)
+        classes = [["bool", "u8", "i8"], ["u16", "i16"], ["u32", "i32", "f32", "char"], ["u64", "i64", "f64"]]
+        for k in range(8):
+            fl = []
+            for seg in range(rr.choice([1, 2, 2])):
+                cl = rr.choice(classes)
+                for i in range(rr.choice([3, 4, 5, 6])):
+                    fl.append(("r%d_%d" % (seg, i), rr.choice(cl)))
+                fl.append(("t%d" % seg, rr.choice(["String", "Vec<u8>", "usize", "Option<u8>", "Vec<u16>"])))
+            if rr.random() < 0.4:
+                fl = fl[-1:] + fl[:-1]
+            runs.append(("cur_runr%d" % k, "CurRunR%d" % k, fl))
+        for (mod, ty, fields) in runs:
+            fl = [dict(name=n, ty=t, t=(PRIMS[t] if t in PRIMS else T(t))) for n, t in fields]
+            d, m = self.emit_struct(ty, fl, None, "named")
+            self.add_item(mod, ty, d, m, {"curated", "struct", "field-runs"})
+        variants = [dict(name="A", style="named", fields=[dict(name=n, ty=t, t=(PRIMS[t] if t in PRIMS else T(t))) for n, t in [("a", "bool"), ("b", "u8"), ("c", "bool"), ("d", "u8"), ("s", "String")]]),
+                    dict(name="B", style="unit", fields=[]),
+                    dict(name="C", style="tuple", fields=[dict(name="%d" % j, ty=t, t=(PRIMS[t] if t in PRIMS else T(t))) for j, t in enumerate(["u32", "char", "i32", "char", "String"])])]
+        d, m = self.emit_enum("CurRunE", variants, None)
+        self.add_item("cur_rune", "CurRunE", d, m, {"curated", "enum", "field-runs"})
         # struct holding the explicit-discriminant enum next to a byte (C01/C04 finding #8)
         fl = [dict(name="e", ty="super::cur_e7::CurE7", t=T("x")), dict(name="x", ty="u8", t=PRIMS["u8"])]
         d, m = self.emit_struct("CurS7", fl, "C", "named")
